@@ -214,13 +214,16 @@ def run_real(order, method, edges):
     return got == REAL_EXPECT[method] and obs["extends"] == ["B", "C"] and call.instance.type is a, obs
 
 
-SHAPE_GRAMMAR = REAL_GRAMMAR.replace("':' type=[Class];", "(':' type=[Class])?;")
+SHAPE_GRAMMAR = (REAL_GRAMMAR.replace("':' type=[Class];", "(':' type=[Class])?;").replace("Stmt: Class |", "Stmt: Iface | Class |")
+                 .replace("'{' methods*=Method '}';", "('impl' iface=[Iface])? '{' methods*=Method '}';\nIface: 'iface' name=ID '[' methods*=Method ']';", 1))
 SHAPES = {
     # a cycle of 'extends' references: the walk over the base classes must end
     "cyclic-extends": (["class A extends B { m h }", "class B extends A { m f }", "inst i : A"], {"h": "A", "f": "B", "zz": None}),
     "self-extends": (["class A extends A { m h }", "class B { m f }", "inst i : A"], {"h": "A", "f": None}),
     # the optional reference on the provider's path is absent: nothing can be proposed, the name is unknown
     "absent-type": (["class A { m h }", "inst i", "inst k : A"], {"h": None}),
+    # the provider's path to the target list crosses a reference (Class.iface) that is answered one round late
+    "target-through-reference": (["iface I [ m f ]", "class A impl I { }", "inst i : A"], {"f": "I", "zz": None}),
 }
 
 
@@ -233,13 +236,25 @@ def run_shape(shape, order, method, provider):
     if "shape" not in _S:
         _S["shape"] = metamodel_from_str(SHAPE_GRAMMAR)
     mm = _S["shape"]
-    mm.register_scope_providers({"Call.method": ExtRelativeName("instance.type", "methods", "extends") if provider == "ExtRelativeName"
-                                 else RelativeName("instance.type.methods")})
+    if shape == "target-through-reference":
+        from textx.scoping.providers import PlainName
+
+        asked = []
+
+        def late(obj, attr, obj_ref):  # Class.iface is postponed when it is asked for the first time
+            asked.append(1)
+            return len(asked) == 1
+        mm.register_scope_providers({"Class.iface": PlainSched(PlainName(), late, horizon=50),
+                                     "Call.method": ExtRelativeName("instance.type", "iface.methods", "extends") if provider == "ExtRelativeName"
+                                     else RelativeName("instance.type.iface.methods")})
+    else:
+        mm.register_scope_providers({"Call.method": ExtRelativeName("instance.type", "methods", "extends") if provider == "ExtRelativeName"
+                                     else RelativeName("instance.type.methods")})
     stmts, expect = SHAPES[shape]
     stmts = stmts + ["call i . %s" % method]
     text = "\n".join(stmts[i] for i in order)
     exp = expect[method]
-    if provider == "RelativeName" and exp not in (None, "A"):
+    if provider == "RelativeName" and exp not in (None, "A") and shape != "target-through-reference":
         exp = None  # RelativeName does not follow 'extends'
     line = [stmts[i] for i in order].index(stmts[-1]) + 1
     obs = {"shape": shape, "provider": provider, "model": text, "expected_class_of_method": exp}
